@@ -1,0 +1,34 @@
+// +build verif
+
+package server
+
+// Contracts for the verifier in /verif (comment-only; see /verif/DESIGN.md).
+// C17, narrowly: what ONE batcher does sequentially. Arrival timings, several
+// batchers on one channel (each value is received once: Go's channel semantics)
+// and the strength of ed25519 are outside the verifier's reach.
+
+/*@
+immutable Sender.agent, Sender.signer, Sender.log, Sender.BatchSize, Sender.TTL, Sender.Interval, Sender.quitCh by NewSenderWithLogger
+
+// a snapshot is signed exactly once and travels with its own signature
+func Sender.doSign
+  props C17
+  requires !isnil(s.signer) && !isnil(s.log)
+  modifies signCalls
+  ensures C17/signed-once: signCalls == old(signCalls) + 1
+  ensures C17/snapshot-with-its-signature: isnil(result_1) ==> result_0 != nil && result_0.Snapshot == snapshot
+
+func Sender.newBatch
+  props C17
+  ensures result != nil && fresh(result) && len(result.Snapshots) == 0
+
+// a batch never grows beyond the configured size, and whatever the batcher publishes is a
+// batch message carrying the configured TTL
+func Sender.batcher
+  props C17
+  requires s.BatchSize >= 1 && s.agent != nil && !isnil(s.signer) && !isnil(s.log)
+  modifies everything, signCalls, publishCount, lastPublishedTTL, lastPublishedBatch
+  loop 1 modifies everything, signCalls, publishCount, lastPublishedTTL, lastPublishedBatch
+  loop 1 invariant C17/batch-size-bound: batch != nil && len(batch.Snapshots) <= s.BatchSize
+  loop 1 invariant C17/published-with-ttl: publishCount == old(publishCount) || (lastPublishedTTL == s.TTL && lastPublishedBatch)
+@*/
